@@ -1,60 +1,52 @@
 ---------------------------- MODULE EcGenWalk ----------------------------
-(* Generator (mode B) for the 13- and 16-bit curves (property C02): the whole group is walked point by
-   point.  For a base B = s*G the walk  0*B, 1*B, 2*B, ... (n+1)*B  is cut into chunks of CH consecutive
-   multiples; one state per (curve, s, chunk).  A chunk state carries
-       pts[t+1]  = (k0 + t)*B                        every scalar 0..n+1 of the multipliers (B = G: base-point mult)
-   and, when the chunk is selected (s = 1 and chunk number divisible by Stride), for every point P in it
-       dbl = 2P, neg = -P                            (P + P, P - P = Inf, P + (-P) = Inf, P + Inf, Inf + P, P +- G)
-       dbln[j] = 2^j P for j = 1 .. m+1              only for the first DN points of the chunk
-   (n-1)P = -P, nP = Inf, (n+1)P = P are consequences of ord(G) = n (ASSUMEd in EcCurves, h = 1): the
-   invariant Special re-derives them with the double-and-add ladder for the first point of every chunk. *)
-EXTENDS EcCurves, Json
-CONSTANTS CurveNames, Bases, CH, Stride, DN
-VARIABLES c, s, j, first, chunk, ext
-vars == << c, s, j, first, chunk, ext >>
+(* Generator (mode B) for the 13- and 16-bit curves (property C02): the whole group is walked point by point.
+   For a base B = s*G one state per scalar k = KFrom .. KTo (KTo = 0 means n+1, so that 0, 1, n-1, n and n+1 are
+   all visited):   P = k*B  by repeated addition  (B = G: the expectation for the base-point multiplier; any B: for
+   the unknown-point multiplier with operand B).
+   For the selected states (s = 1 and k divisible by Stride) the state also carries what the rig needs to drive the
+   library with the operand P itself:  dbl = 2P,  neg = -P,  next = P + G,  prev = P - G,  and, every DStride-th
+   selected state, dbln[j] = 2^j P for j = 1..m+1.   (n-1)P = -P, nP = Inf, (n+1)P = P follow from ord(G) = n
+   (ASSUMEd in EcCurves, h = 1); invariant Special re-derives them with the double-and-add ladder on every
+   DStride-th selected state.                                                                                *)
+EXTENDS EcCurves, Json, Integers
+CONSTANTS CurveNames, Bases, KFrom, KTo, Stride, DStride
+VARIABLES c, s, k, P, ext
+vars == << c, s, k, P, ext >>
 
-KEnd(cv) == cv.n + 1                                  \* last scalar of the walk
+KEnd(cv) == IF KTo = 0 THEN cv.n + 1 ELSE KTo
 B(cv, sv) == Mul(cv, sv, G(cv))
-ChunkLen(cv, jv) == LET rest == KEnd(cv) + 1 - jv * CH IN IF rest < CH THEN rest ELSE CH
-RECURSIVE Run(_, _, _, _)
-Run(cv, start, step, len) ==                          \* << start, start+step, ..., start+(len-1)*step >>
-   IF len = 1 THEN << start >>
-   ELSE LET prev == Run(cv, start, step, len - 1) IN Append(prev, Add(cv, prev[len - 1], step))
-Selected(sv, jv) == sv = 1 /\ jv % Stride = 0
-Ext(cv, sv, jv, ch) ==
-   IF ~Selected(sv, jv) THEN [dbl |-> << >>, neg |-> << >>, dbln |-> << >>]
-   ELSE [ dbl  |-> [t \in 1..Len(ch) |-> Dbl(cv, ch[t])],
-          neg  |-> [t \in 1..Len(ch) |-> Neg(cv, ch[t])],
-          dbln |-> [t \in 1..(IF DN < Len(ch) THEN DN ELSE Len(ch)) |-> [e \in 1..(cv.m + 1) |-> DblN(cv, ch[t], e)]] ]
+Selected(sv, kv) == sv = 1 /\ kv % Stride = 0
+Deep(sv, kv) == Selected(sv, kv) /\ kv % (Stride * DStride) = 0
+None == [dbl |-> << >>, neg |-> << >>, next |-> << >>, prev |-> << >>, dbln |-> << >>]
+Ext(cv, sv, kv, Q) ==
+   IF ~Selected(sv, kv) THEN None
+   ELSE [ dbl  |-> Dbl(cv, Q), neg |-> Neg(cv, Q), next |-> Add(cv, Q, G(cv)), prev |-> Sub(cv, Q, G(cv)),
+          dbln |-> IF Deep(sv, kv) THEN [e \in 1..(cv.m + 1) |-> DblN(cv, Q, e)] ELSE << >> ]
 
 Init == /\ c \in { CurveByName(nm) : nm \in CurveNames }
-        /\ s \in Bases /\ j = 0 /\ first = Inf
-        /\ chunk = Run(c, Inf, B(c, s), ChunkLen(c, 0))
-        /\ ext = Ext(c, s, 0, chunk)
-Step == /\ (j + 1) * CH <= KEnd(c)
-        /\ j' = j + 1
-        /\ first' = Add(c, chunk[Len(chunk)], B(c, s))
-        /\ chunk' = Run(c, first', B(c, s), ChunkLen(c, j + 1))
-        /\ ext' = Ext(c, s, j + 1, chunk')
+        /\ s \in Bases /\ k = KFrom
+        /\ P = Mul(c, KFrom, B(c, s))
+        /\ ext = Ext(c, s, KFrom, P)
+Step == /\ k < KEnd(c)
+        /\ k' = k + 1
+        /\ P' = Add(c, P, B(c, s))
+        /\ ext' = Ext(c, s, k + 1, P')
         /\ UNCHANGED << c, s >>
 Next == Step
 Spec == Init /\ [][Next]_vars
 
-K0 == j * CH
 (* ---- checked by TLC on every state *)
-Closed  == /\ \A t \in 1..Len(chunk) : OnCurve(c, chunk[t])
-           /\ \A t \in 1..Len(ext.dbl) : OnCurve(c, ext.dbl[t]) /\ OnCurve(c, ext.neg[t])
-Ladder  == /\ chunk[1] = Mul(c, K0, B(c, s))                                  \* walk = double-and-add
-           /\ chunk[Len(chunk)] = Mul(c, K0 + Len(chunk) - 1, B(c, s))
-Special == LET X == chunk[1] IN                                             \* order of every point divides n
-           /\ Mul(c, c.n, X) = Inf /\ Mul(c, c.n - 1, X) = Neg(c, X) /\ Mul(c, c.n + 1, X) = X
-Cycle   == /\ (K0 <= c.n /\ c.n < K0 + Len(chunk)) => chunk[c.n - K0 + 1] = Inf          \* n*B = Inf
-           /\ (K0 <= c.n + 1 /\ c.n + 1 < K0 + Len(chunk)) => chunk[c.n + 2 - K0] = B(c, s)
-           /\ \A t \in 1..Len(chunk) : (chunk[t] = Inf) => (K0 + t - 1) % c.n = 0          \* no earlier return
-DblOk   == /\ \A t \in 1..Len(ext.dbl) : ext.dbl[t] = Add(c, chunk[t], chunk[t])
-                                        /\ Add(c, chunk[t], ext.neg[t]) = Inf
-           /\ \A t \in 1..Len(ext.dbln) : \A e \in 1..(c.m + 1) : ext.dbln[t][e] = Mul(c, Pow2(e), chunk[t])
+Closed  == OnCurve(c, P) /\ (Selected(s, k) => OnCurve(c, ext.dbl) /\ OnCurve(c, ext.next) /\ OnCurve(c, ext.prev))
+Cycle   == /\ (P = Inf <=> (k * s) % c.n = 0)                         \* ord(B) = n: no early return to Inf  (s < n)
+           /\ (k = c.n + 1 => P = B(c, s))
+Ladder  == (k % 64 = 0 \/ k >= c.n - 1) => P = Mul(c, k, B(c, s))        \* the walk is the double-and-add multiple
+Special == Deep(s, k) =>
+           /\ Mul(c, c.n, P) = Inf /\ Mul(c, c.n - 1, P) = ext.neg /\ Mul(c, c.n + 1, P) = P
+           /\ \A e \in 1..(c.m + 1) : ext.dbln[e] = Mul(c, Pow2(e), P)
+DblOk   == Selected(s, k) =>
+           /\ ext.dbl = Add(c, P, P) /\ Add(c, P, ext.neg) = Inf
+           /\ Add(c, ext.prev, G(c)) = P /\ Sub(c, ext.next, G(c)) = P
 
-Emit == PrintT(ToJson([gen |-> "walk", curve |-> c, s |-> s, base |-> B(c, s), k0 |-> K0, sel |-> Selected(s, j),
-                       pts |-> chunk, dbl |-> ext.dbl, neg |-> ext.neg, dbln |-> ext.dbln]))
+Emit == PrintT(ToJson([gen |-> "walk", cn |-> c.name, curve |-> (IF k = KFrom THEN c ELSE << >>), s |-> s, base |-> B(c, s), k |-> k, P |-> P,
+                       sel |-> Selected(s, k), ext |-> ext]))
 =============================================================================
